@@ -268,98 +268,74 @@ def hash_digest_rule(facts):
     return out
 
 
+def flag_rows(facts):
+    """booleans decoded from the image by a constant-mask bit test in reader functions: (key, terms, decl, fn); keys and terms are
+    independent of local names, of hoisting the flags byte into a local and of naming the mask / the byte offset"""
+    import field_validation
+    from astu import ctext
+    from triggers import _loc_key
+    fns = functions_by(facts)
+    out = []
+    for pat, fn in sorted(fns.items()):
+        if not (fn["name"].startswith("deserialize") or fn["name"].startswith("check_") or fn["name"] in ("parse", "newHll", "newList", "newSet", "internal_deserialize_or_wrap")):
+            continue
+        if fn.get("body") is None:
+            continue
+        rect = short(fn.get("rect") or "")
+        cands = []
+
+        def v(n):
+            if n.get("k") != "Decl":
+                return
+            for var in n.get("vars", []):
+                if var.get("t") not in ("const bool", "bool") or var.get("init") is None:
+                    continue
+                masks = []
+                walk(var["init"], lambda x: masks.append(x) if x.get("k") == "Bin" and x.get("op") == "&" and ("v" in strip(x["l"]) or "v" in strip(x["r"])) else None)
+                if masks:
+                    cands.append(var)
+        walk(fn["body"], v)
+        cands.sort(key=_loc_key)
+        kind = field_validation._kind(fn) or ""
+        for i, var in enumerate(cands):
+            terms = sorted(set(ctext(fn, t) for t in _split_nodes(var["init"])))
+            out.append(("%s::%s(%s):flag#%d" % (rect, fn["name"], kind, i), terms, var, fn))
+    return out
+
+
+def _split_nodes(e):
+    e = strip(e)
+    if isinstance(e, dict) and e.get("k") == "Bin" and e.get("op") in ("|", "||", "&&"):
+        return _split_nodes(e["l"]) + _split_nodes(e["r"])
+    if isinstance(e, dict) and e.get("k") == "Construct" and len(e.get("args", [])) == 1:
+        return _split_nodes(e["args"][0])
+    return [e]
+
+
 def flag_provenance(facts):
     """a boolean decoded from the image's flags byte depends on exactly the documented flag bit(s); extra terms are listed
     (reviewed) in spec/layouts.json -> flag_terms"""
     sp = spec().get("flag_terms", {})
-    fns = functions_by(facts)
     out = []
-    seen_keys = set()
-    for pat, fn in sorted(fns.items()):
-        if not (fn["name"].startswith("deserialize") or fn["name"].startswith("check_") or fn["name"] in ("parse", "newHll", "newList", "newSet", "internal_deserialize_or_wrap")):
-            continue
-        rect = short(fn.get("rect") or "")
-
-        def v(n):
-            if n.get("k") != "Decl":
-                return
-            for var in n.get("vars", []):
-                if var.get("t") not in ("const bool", "bool") or var.get("init") is None:
-                    continue
-                t = txt(var["init"]).replace(" ", "")
-                if "flags" not in t.lower() or "&" not in t:
-                    continue
-                key = "%s::%s:%s" % (rect, fn["name"], var["n"])
-                k2 = key
-                i = 1
-                while k2 in seen_keys:
-                    i += 1
-                    k2 = "%s#%d" % (key, i)
-                seen_keys.add(k2)
-                # terms: split on | and || and &&
-                terms = sorted(set(x for x in _split_terms(strip(var["init"]))))
-                want = sp.get(k2)
-                if want is None:
-                    out.append(ob("layout.flags", k2, var["loc"], "unrecognised", "flag decoding `%s = %s` is not in the reviewed table (new reader code: review and add to spec/layouts.json)" % (var["n"], t), fn["qname"]))
-                elif sorted(C(x) for x in terms) == sorted(C(x) for x in want):
-                    out.append(ob("layout.flags", k2, var["loc"], "discharged", "%s = %s" % (var["n"], " | ".join(terms)), fn["qname"]))
-                else:
-                    out.append(ob("layout.flags", k2, var["loc"], "violated", "`%s` is decoded as `%s`; the documented layout derives it from %s only: images written by other implementations / earlier releases are interpreted differently" % (var["n"], " | ".join(terms), " | ".join(want)), fn["qname"]))
-        walk(fn["body"], v)
+    seen = set()
+    for key, terms, var, fn in flag_rows(facts):
+        want = sp.get(key)
+        seen.add(key)
+        if want is None:
+            out.append(ob("layout.flags", key, var["loc"], "unrecognised", "flag decoding `%s = %s` is not in the reviewed table (new reader code: review and add to spec/layouts.json)" % (var["n"], " | ".join(terms)), fn["qname"]))
+        elif terms == want:
+            out.append(ob("layout.flags", key, var["loc"], "discharged", "%s = %s" % (var["n"], " | ".join(terms)), fn["qname"]))
+        else:
+            out.append(ob("layout.flags", key, var["loc"], "violated", "`%s` is decoded as `%s`; the documented layout derives it from %s only: images written by other implementations / earlier releases are interpreted differently" % (var["n"], " | ".join(terms), " | ".join(want)), fn["qname"]))
+    for key in sp:
+        if key not in seen:
+            out.append(ob("layout.flags", key, "", "unrecognised", "the reviewed flag decoding %s (%s) is no longer found: re-review spec/layouts.json" % (key, " | ".join(sp[key])), ""))
     return out
-
-
-def _split_terms(e):
-    e = strip(e)
-    if isinstance(e, dict) and e.get("k") == "Bin" and e.get("op") in ("|", "||", "&&"):
-        return _split_terms(e["l"]) + _split_terms(e["r"])
-    if isinstance(e, dict) and e.get("k") == "Construct" and len(e.get("args", [])) == 1:
-        return _split_terms(e["args"][0])
-    t = txt(e).replace(" ", "")
-    # normalise `(x & m) > 0`, `(x & m) != 0`, `x & m` to the masked test
-    for suf in (">0)", "!=0)"):
-        if t.endswith(suf) and t.startswith("("):
-            t = t[1:-len(suf)]
-    return [t]
 
 
 def flag_terms_table(facts):
     """used by tools/gen_spec_c10.py to build the reviewed table"""
-    fns = functions_by(facts)
-    res = {}
-    for o in flag_provenance_raw(facts):
-        res[o[0]] = o[1]
-    return res
-
-
-def flag_provenance_raw(facts):
-    fns = functions_by(facts)
-    seen_keys = set()
-    out = []
-    for pat, fn in sorted(fns.items()):
-        if not (fn["name"].startswith("deserialize") or fn["name"].startswith("check_") or fn["name"] in ("parse", "newHll", "newList", "newSet", "internal_deserialize_or_wrap")):
-            continue
-        rect = short(fn.get("rect") or "")
-
-        def v(n):
-            if n.get("k") != "Decl":
-                return
-            for var in n.get("vars", []):
-                if var.get("t") not in ("const bool", "bool") or var.get("init") is None:
-                    continue
-                t = txt(var["init"]).replace(" ", "")
-                if "flags" not in t.lower() or "&" not in t:
-                    continue
-                key = "%s::%s:%s" % (rect, fn["name"], var["n"])
-                k2 = key
-                i = 1
-                while k2 in seen_keys:
-                    i += 1
-                    k2 = "%s#%d" % (key, i)
-                seen_keys.add(k2)
-                out.append((k2, sorted(set(_split_terms(strip(var["init"]))))))
-        walk(fn["body"], v)
-    return out
+    return {key: terms for key, terms, var, fn in flag_rows(facts)}
 
 
 def estimation_state_written(facts):
